@@ -132,6 +132,8 @@ func (sv *searchVars) setKeysItem(f slip.Object, s *slip.Scope, args slip.List, 
 			sv.key = ResolveToCaller(s, args[pos+1], depth)
 		case ":test":
 			sv.test = ResolveToCaller(s, args[pos+1], depth)
+		case ":test-not":
+			sv.test = notCaller{Caller: ResolveToCaller(s, args[pos+1], depth)}
 		case ":start1":
 			if num, ok := args[pos+1].(slip.Fixnum); ok && 0 <= num {
 				sv.start1 = int(num)
